@@ -19,6 +19,7 @@ import Driver.Md4
 import Driver.TotpSerial
 import Driver.Shapes
 import Driver.SpecFmt
+import Driver.Threads
 /-
 Line protocol driver: `<suite> <op> <args…>` per input line, one result line out.
 Compiled (`lean_exe modeldrv`); nothing imported here touches Mathlib.
@@ -46,6 +47,7 @@ def dispatch (line : String) : String :=
   | "tser" :: rest => Driver.TotpSerial.handle rest
   | "shape" :: rest => Driver.Shapes.handle rest
   | "sfmt" :: rest => Driver.SpecFmt.handle rest
+  | "threads" :: rest => Driver.Threads.handle rest
   | _ => Driver.bad
 
 partial def loop (h : IO.FS.Stream) (out : IO.FS.Stream) : IO Unit := do
